@@ -80,7 +80,11 @@ fn main() -> ExitCode {
             };
             let file_name = entry.file_name().to_string_lossy();
 
-            if file_name.ends_with(".asn") || file_name.ends_with(".asn1") {
+            // only files are modules: a directory that happens to be called `x.asn` is searched,
+            // not compiled
+            if entry.file_type().is_file()
+                && (file_name.ends_with(".asn") || file_name.ends_with(".asn1"))
+            {
                 eprintln!("{}: Found ASN1 module {}", "info".blue(), file_name);
                 modules.push(entry.into_path());
                 module_found = true;
